@@ -284,13 +284,41 @@ def cargo_build():
     return True, "\n".join(logs)
 
 
-def harness_run(profile, family, casefile, outfile, timeout=1200):
+def harness_run(profile, family, casefile, outfile, timeout=1200, jobs=8):
+    """Runs the harness on the case file; large files are split over `jobs` processes (cases are independent)."""
     exe = os.path.join(TARGET, profile, "wp_harness")
-    rc, out = sh([exe, family, casefile, outfile], timeout)
-    if rc != 0:
-        raise RuntimeError(f"harness {profile} {family} failed rc={rc}: {out[-2000:]}")
-    with open(outfile) as f:
-        return [json.loads(l) for l in f if l.strip()]
+    lines = [l for l in open(casefile).read().split("\n") if l.strip() and not l.startswith("#")]
+    if len(lines) < 64 or jobs <= 1:
+        rc, out = sh([exe, family, casefile, outfile], timeout)
+        if rc != 0:
+            raise RuntimeError(f"harness {profile} {family} failed rc={rc}: {out[-2000:]}")
+        with open(outfile) as f:
+            return [json.loads(l) for l in f if l.strip()]
+    import subprocess
+    per = (len(lines) + jobs - 1) // jobs
+    parts = []
+    for k in range(jobs):
+        chunk = lines[k * per:(k + 1) * per]
+        if not chunk:
+            continue
+        cf, of = f"{casefile}.part{k}", f"{outfile}.part{k}"
+        with open(cf, "w") as f:
+            f.write("\n".join(chunk) + "\n")
+        parts.append((cf, of, subprocess.Popen([exe, family, cf, of], stdout=subprocess.PIPE, stderr=subprocess.STDOUT)))
+    res = []
+    for cf, of, pr in parts:
+        try:
+            out, _ = pr.communicate(timeout=timeout)
+        except subprocess.TimeoutExpired:
+            pr.kill()
+            raise RuntimeError(f"harness {profile} {family} timed out")
+        if pr.returncode != 0:
+            raise RuntimeError(f"harness {profile} {family} failed rc={pr.returncode}: {out.decode(errors='replace')[-2000:]}")
+        with open(of) as f:
+            res += [json.loads(l) for l in f if l.strip()]
+        os.remove(cf)
+        os.remove(of)
+    return res
 
 
 # ---------------------------------------------------------------------------------------------
